@@ -152,7 +152,9 @@ class Engine(Interp):
             return v       # copy of an immutable / shared model object
         if w == 'module:time' and name == 'time':
             self.note_assumed('time.time() (wall clock, nondeterministic)')
-            return Sym('num', z3.Real(fresh_name('wallclock')))
+            w_ = Sym('num', z3.Real(fresh_name('wallclock')))
+            self.st.ghost.setdefault('_nondet', []).append((w_.t, f"time.time() at line {getattr(node, 'lineno', '?')}"))
+            return w_
         if w == 'module:pd' and name in self.spec.dep_classes.get('module:pd', {}):
             self.note_assumed(f"pandas.{name}")
             return self.spec.dep_classes['module:pd'][name](self, recv, args, node)
@@ -254,6 +256,13 @@ class Engine(Interp):
                 l.elem = other.elem
             self.bag_facts(l)
             return None
+        if name == 'difference' and l.isset:
+            other = args[0]
+            if isinstance(other, ListObj):
+                c = self.list_copy(l)
+                c.isset = True
+                self.set_minus(c, other)
+                return c
         if name == 'issubset':
             other = args[0]
             x = z3.Int(fresh_name('ss'))
@@ -361,7 +370,16 @@ class Engine(Interp):
             if isinstance(v, DictObj):
                 v = self.to_list(v, node)
             if isinstance(v, ListObj):
-                return self.list_copy(v)     # order is abstracted
+                r = self.list_copy(v)     # order is abstracted
+                r.isset = False
+                if v.isset or getattr(v, 'hash_ordered', False):
+                    # sorted(<set>): deterministic only if the key is injective on the elements
+                    keynode = None
+                    for kw in getattr(node, 'keywords', []):
+                        if kw.arg == 'key':
+                            keynode = kw.value
+                    r.hash_ordered = not self.key_is_injective(keynode)
+                return r
             raise OutOfSubset("sorted() of non-list")
         if name == 'print':
             return None
@@ -382,6 +400,18 @@ class Engine(Interp):
         if name == 'super':
             return Opaque('super')
         raise OutOfSubset(f"builtin {name}")
+
+    def key_is_injective(self, keynode):
+        """sort key that separates distinct tasks / machines / observations: it is, or contains, the object's unique id or name"""
+        if keynode is None or not isinstance(keynode, ast.Lambda):
+            return False
+        arg = keynode.args.args[0].arg if keynode.args.args else None
+        body = keynode.body
+        parts = body.elts if isinstance(body, ast.Tuple) else [body]
+        for p in parts:
+            if isinstance(p, ast.Attribute) and isinstance(p.value, ast.Name) and p.value.id == arg and p.attr in ('id', 'name'):
+                return True
+        return False
 
     def isinstance_(self, v, cname, node):
         if cname == 'int':
@@ -972,6 +1002,9 @@ class Engine(Interp):
                 it = self.to_list(it, s)
             if not isinstance(it, ListObj):
                 raise OutOfSubset(f"for over {type(it).__name__}")
+            if (it.isset or getattr(it, 'hash_ordered', False)) and not getattr(spec, 'order_independent', False):
+                # C10: the iteration order of a set of objects depends on the interpreter's hash seed
+                self.oblige(f"det:{fi.qual}:C10-iteration-order-independent-of-the-hash-seed@{self.site(s.iter)}", 'det', False, s)
             self.bag_facts(it)
             was_frozen = it.frozen
             it.frozen = True
